@@ -83,6 +83,18 @@ func checkDescription(c ax.Case) *vlib.Failure {
 	if strip(rowA) != c.R[first.AS:last.AE] || strip(rowB) != c.Q[first.BS:last.BE] {
 		return vlib.Failf("format-content", "%s: Format rows %q / %q do not reduce to the aligned subsequences %q / %q", desc, rowA, rowB, c.R[first.AS:last.AE], c.Q[first.BS:last.BE])
 	}
+	// Format takes the gap letter from its caller: a second rendering of the same alignment with
+	// another letter (one that occurs in neither sequence) uses that letter and nothing else
+	for _, g2 := range []alphabet.Letter{'.', '~'} {
+		f2 := align.Format(rs.(seq.Slicer), qseq.(seq.Slicer), raw, g2)
+		a2, b2 := f2[0].(alphabet.Letters), f2[1].(alphabet.Letters)
+		strip2 := func(l alphabet.Letters) string {
+			return strings.ReplaceAll(string(alphabet.LettersToBytes(l)), string([]byte{byte(g2)}), "")
+		}
+		if len(a2) != len(rowA) || len(b2) != len(rowB) || strip2(a2) != c.R[first.AS:last.AE] || strip2(b2) != c.Q[first.BS:last.BE] {
+			return vlib.Failf("format-content", "%s: Format with gap letter %q after a rendering with %q gives %q / %q, which do not reduce to the aligned subsequences", desc, g2, gap, a2, b2)
+		}
+	}
 	// the same for quality-carrying sequences
 	rq, qq := cq.Seqs()
 	fq := align.Format(rq.(seq.Slicer), qq.(seq.Slicer), raw, gap)
